@@ -114,6 +114,8 @@ def run(ctx):
     cases += cases_from_model(ctx, ctx.pick(2000, 40000))
     cases += V.random_cases(ctx, ctx.pick(3000, 60000))
     cases += V.mutated_vectors(ctx, ctx.pick(800, 20000))
+    cases += V.p2sh_cases(ctx, ctx.pick(600, 10000))
+    cases += V.limit_cases(ctx)
     events = V.run_cases(ctx, cases, three=False)
     rejects, st = V.validate(ctx, events)
     ctx.cov.update(st)
